@@ -17,6 +17,7 @@ INVARIANT MedianIsEligibleMember
 INVARIANT MedianIsMiddle
 INVARIANT CylinderSourceIsMiddle
 INVARIANT StorageOrderIrrelevant
+INVARIANT TemperaturesAgree
 INVARIANT OutcomeRule
 PROPERTY CreateLeavesMembers
 CHECK_DEADLOCK FALSE
